@@ -1,6 +1,7 @@
 package main
 
 import (
+	"go/token"
 	"go/types"
 	"fmt"
 	"go/constant"
@@ -38,6 +39,7 @@ func c17h(c *Ctx) {
 	// package main, through conversions to an interface / []byte and argument lists — and
 	// through nothing else
 	nSinks := 0
+	sinkCalls := map[*ssa.Function][]ssa.CallInstruction{}
 	var follow func(fn *ssa.Function, v ssa.Value, depth int)
 	seen := map[ssa.Value]bool{}
 	follow = func(fn *ssa.Function, v ssa.Value, depth int) {
@@ -100,6 +102,7 @@ func c17h(c *Ctx) {
 				n := calleeName(y)
 				if isSink(n) {
 					nSinks++
+					sinkCalls[fn] = append(sinkCalls[fn], y)
 					c.OK(fmt.Sprintf("output/%s/written@%d", fn.Name(), c.T(fn).callOrd[y]), c.W.Pos(y.Pos()), "written with "+n)
 					continue
 				}
@@ -130,6 +133,117 @@ func c17h(c *Ctx) {
 				}
 			}
 		}
+	}
+	// ... and it is written on every way that ends well: in a function that writes the text, no
+	// successful return is reached past all the writes (a branch that forgets to print)
+	for _, fn := range mains {
+		calls := sinkCalls[fn]
+		if len(calls) == 0 {
+			continue
+		}
+		isWrite := func(in ssa.Instruction) bool {
+			for _, sc := range calls {
+				if in == sc.(ssa.Instruction) {
+					return true
+				}
+			}
+			return false
+		}
+		w, skips := existsPath(pathQuery{from: entry(fn), avoid: isWrite, target: func(in ssa.Instruction) bool {
+			r, isRet := in.(*ssa.Return)
+			return isRet && isSuccessReturn(r)
+		}})
+		where := ""
+		if skips {
+			where = c.nearPos(w)
+		}
+		c.Check(!skips, "output/"+fn.Name()+"/written-on-every-way", c.W.FuncPos(fn), "every successful return of the writing function has written the text", fn.Name()+" can report success ("+where+") without having written the compiled text: the output is silently lost")
+	}
+	// (1b) what is compiled is what was read: the text handed to the lexer comes, through helpers of
+	// package main, conversions and merges, from a read of standard input or of the input file —
+	// from every branch (a branch that forgets to read compiles the empty program)
+	{
+		nLex := 0
+		for _, fn := range mains {
+			for _, ci := range callsIn(fn) {
+				if !strings.HasSuffix(calleeName(ci), "/lexer.New") || len(ci.Common().Args) != 1 {
+					continue
+				}
+				nLex++
+				var bad []string
+				nRead := 0
+				seenV := map[ssa.Value]bool{}
+				var origin func(f *ssa.Function, v ssa.Value, depth int)
+				origin = func(f *ssa.Function, v ssa.Value, depth int) {
+					if seenV[v] || depth > 6 {
+						return
+					}
+					seenV[v] = true
+					switch x := v.(type) {
+					case *ssa.Convert:
+						origin(f, x.X, depth)
+					case *ssa.ChangeType:
+						origin(f, x.X, depth)
+					case *ssa.Phi:
+						for _, e := range x.Edges {
+							origin(f, e, depth)
+						}
+					case *ssa.Extract:
+						if call, isCall := x.Tuple.(*ssa.Call); isCall {
+							n := calleeName(call)
+							if n == "io/ioutil.ReadAll" || n == "io.ReadAll" || n == "io/ioutil.ReadFile" || n == "os.ReadFile" {
+								if x.Index == 0 {
+									nRead++
+								} else {
+									bad = append(bad, "result "+fmt.Sprint(x.Index)+" of "+n)
+								}
+								return
+							}
+							if g := callee(call); g != nil && g.Pkg != nil && g.Pkg.Pkg.Name() == "main" && len(g.Blocks) > 0 {
+								for _, r := range returnsOf(g) {
+									if x.Index < len(r.Results) {
+										origin(g, r.Results[x.Index], depth+1)
+									}
+								}
+								return
+							}
+						}
+						bad = append(bad, pretty(c.term(f, v)))
+					case *ssa.Call:
+						if g := callee(x); g != nil && g.Pkg != nil && g.Pkg.Pkg.Name() == "main" && len(g.Blocks) > 0 {
+							for _, r := range returnsOf(g) {
+								if len(r.Results) >= 1 {
+									origin(g, r.Results[0], depth+1)
+								}
+							}
+							return
+						}
+						bad = append(bad, pretty(c.term(f, v)))
+					case *ssa.Const:
+						bad = append(bad, "a constant ("+pretty(c.term(f, v))+": nothing was read on that way)")
+					case *ssa.Parameter:
+						// handed in by the callers (a `compile(input, …)` helper of package main)
+						idx := paramIndex(f, x)
+						nCallers := 0
+						for _, cs := range c.W.callsTo(f) {
+							if isTestFunc(c.W, cs.Parent()) || idx < 0 || idx >= len(cs.Common().Args) {
+								continue
+							}
+							nCallers++
+							origin(cs.Parent(), cs.Common().Args[idx], depth+1)
+						}
+						if nCallers == 0 {
+							bad = append(bad, pretty(c.term(f, v)))
+						}
+					default:
+						bad = append(bad, pretty(c.term(f, v)))
+					}
+				}
+				origin(fn, ci.Common().Args[0], 0)
+				c.Check(len(bad) == 0 && nRead >= 1, fmt.Sprintf("input/%s/is-what-was-read", fn.Name()), c.W.Pos(ci.Pos()), fmt.Sprintf("the text handed to the lexer is what was read (%d reads)", nRead), fmt.Sprintf("the text handed to the lexer is not, on every way, what was read from standard input or from the input file: %v", bad))
+			}
+		}
+		c.Check(nLex >= 1, "input/lexer-fed", "-", "package main hands the input to lexer.New", "no call of lexer.New found in package main")
 	}
 	c.Check(nEmit >= 1 && nSinks >= 1, "output/followed", "-", fmt.Sprintf("Emit's result followed to %d write call(s)", nSinks), fmt.Sprintf("found %d calls of Emit in package main and %d places where its result is written", nEmit, nSinks))
 	// (2b) nor is the input: the wrapper writes into no byte or rune of a text (the bytes read
@@ -388,6 +502,56 @@ func c17h(c *Ctx) {
 				}
 			}
 		}
+	}
+	// the flags are parsed: after every definition, before any value is looked at
+	for _, fn := range mains {
+		var defs, parses []ssa.CallInstruction
+		for _, ci := range callsIn(fn) {
+			n := calleeName(ci)
+			if n == "flag.Parse" {
+				parses = append(parses, ci)
+			} else if strings.HasPrefix(n, "flag.") {
+				switch strings.TrimSuffix(strings.TrimPrefix(n, "flag."), "Var") {
+				case "String", "Bool", "Int", "Int64", "Uint", "Uint64", "Float64", "Duration", "", "Func", "BoolFunc", "Text":
+					defs = append(defs, ci)
+				}
+			}
+		}
+		if len(defs) == 0 {
+			continue
+		}
+		okParse := len(parses) == 1
+		why := fmt.Sprintf("%s defines %d flags and calls flag.Parse %d times", fn.Name(), len(defs), len(parses))
+		if okParse {
+			pb := parses[0].Block()
+			before := func(a, b ssa.Instruction) bool {
+				if a.Block() == b.Block() {
+					for _, in := range a.Block().Instrs {
+						if in == a {
+							return true
+						}
+						if in == b {
+							return false
+						}
+					}
+				}
+				return a.Block().Dominates(b.Block())
+			}
+			_ = pb
+			for _, d := range defs {
+				if !before(d.(ssa.Instruction), parses[0].(ssa.Instruction)) {
+					okParse, why = false, "the flag defined at "+c.W.Pos(d.Pos())+" is not defined before flag.Parse on every way"
+				}
+				if v := d.Value(); v != nil && v.Referrers() != nil {
+					for _, r := range *v.Referrers() {
+						if ld, isLd := r.(*ssa.UnOp); isLd && ld.Op == token.MUL && !before(parses[0].(ssa.Instruction), ld) {
+							okParse, why = false, "the flag defined at "+c.W.Pos(d.Pos())+" is read before flag.Parse"
+						}
+					}
+				}
+			}
+		}
+		c.Check(okParse, "flags/"+fn.Name()+"/parsed", c.W.FuncPos(fn), "flag.Parse is called once, after the definitions and before the values are read", why+": the options given on the command line do not reach the compiler")
 	}
 	c.Check(nFlags >= 5, "flags/census", "-", fmt.Sprintf("%d flags followed", nFlags), fmt.Sprintf("only %d flag definitions found", nFlags))
 }
